@@ -612,6 +612,37 @@ Section Interp.
     | _, _ => Raise AttributeError
     end.
 
+  (* one round of the loop of update_severable_digests, for the severable member with key `sid` *)
+  Definition sev_step (tc : ty -> val -> res bytes) (em mm : list (bytes * Z * ty)) (ents : list (nat * val))
+                      (ments : list (nat * val)) (sid : Z) : res (list (nat * val)) :=
+    match find_idx (fun x => key_id x =? sid) mm O with
+    | None => Ok ments
+    | Some (si, se) =>
+        match kv_get ments si with
+        | Some (VUnion ai dv) =>
+            match nth_error (alts_of (key_ty se)) ai with
+            | Some at_ =>
+                if is_ref at_ "SuitDigest" then
+                  let* alg := digest_alg dv in
+                  match find_idx (fun x => key_id x =? sid) em O with
+                  | None => Raise Unsupported
+                  | Some (ei, ee) =>
+                      match kv_get ents ei with
+                      | None => Ok ments                      (* KeyError: member not in the envelope *)
+                      | Some ev =>
+                          let* data := tc (key_ty ee) ev in
+                          let* h := hash_of alg data in
+                          let* dv' := digest_set dv h in
+                          Ok (kv_set ments si (VUnion ai dv'))
+                      end
+                  end
+                else Ok ments
+            | None => Ok ments
+            end
+        | _ => Ok ments
+        end
+    end.
+
   Definition update_severable_digests (tc : ty -> val -> res bytes) (root : bytes) (e : val) : res val :=
     match e, envelope_map root with
     | VTagged (VKV ents), Some em =>
@@ -620,35 +651,7 @@ Section Interp.
         | Some (mi, me) =>
             match kv_get ents mi, map_of (key_ty me) with
             | Some (VKV ments), Some mm =>
-                let* ments' :=
-                  foldM (fun (ments : list (nat * val)) (sid : Z) =>
-                    match find_idx (fun x => key_id x =? sid) mm O with
-                    | None => Ok ments
-                    | Some (si, se) =>
-                        match kv_get ments si with
-                        | Some (VUnion ai dv) =>
-                            match nth_error (alts_of (key_ty se)) ai with
-                            | Some at_ =>
-                                if is_ref at_ "SuitDigest" then
-                                  let* alg := digest_alg dv in
-                                  match find_idx (fun x => key_id x =? sid) em O with
-                                  | None => Raise Unsupported
-                                  | Some (ei, ee) =>
-                                      match kv_get ents ei with
-                                      | None => Ok ments                      (* KeyError: member not in the envelope *)
-                                      | Some ev =>
-                                          let* data := tc (key_ty ee) ev in
-                                          let* h := hash_of alg data in
-                                          let* dv' := digest_set dv h in
-                                          Ok (kv_set ments si (VUnion ai dv'))
-                                      end
-                                  end
-                                else Ok ments
-                            | None => Ok ments
-                            end
-                        | _ => Ok ments
-                        end
-                    end) severable_ids ments in
+                let* ments' := foldM (sev_step tc em mm ents) severable_ids ments in
                 Ok (VTagged (VKV (kv_set ents mi (VKV ments'))))
             | None, _ => Raise KeyError
             | _, _ => Raise AttributeError
